@@ -31,11 +31,13 @@
 (*             retransmission timeout it sends a single segment until new  *)
 (*             data is acknowledged")                                      *)
 (*   mode      "open" | "rec" (fast recovery, NewReno / RFC 6675 loss      *)
-(*             recovery) | "rto" (timeout recovery in progress)            *)
-(*   point     recovery point of the episode (-1 in "open")                *)
-(*   org       the mode in which the timeout that started the current      *)
-(*             "rto" period fired ("rto": a further timeout inside it that *)
-(*             raised its point); context of C06.NoEntryDuringRto          *)
+(*             recovery) | "rto" (the ignore period after a timeout INSIDE *)
+(*             an episode, RFC 6675 5.1)                                   *)
+(*   point     recovery point of the episode / ignore period (-1 in "open")*)
+(*   orp       the highest sequence number transmitted when the timer last *)
+(*             fired OUTSIDE an episode, until a packet's ack_nr reaches   *)
+(*             it (-1: none): the timeout recovery RFC 6582 4 would keep.  *)
+(*             Observation only (see the end of this comment).             *)
 (*   rtxd      the current "rec" episode has retransmitted something       *)
 (*   sack      the peer has used the selective-ACK extension               *)
 (*   pa, pw    ack_nr and window of the packet processed immediately       *)
@@ -43,9 +45,6 @@
 (*   cnt       the reference count of duplicates (see below)               *)
 (*   sd, ld    the strictest / loosest reading of the evidence             *)
 (*   rep       length of the current run of identical ST_STATE packets     *)
-(*   tnt       a timeout fired outside an episode (or raised the point of  *)
-(*             a timeout recovery) and the duplicate count has not         *)
-(*             restarted since: context label "+t" only                    *)
 (*   bl        where the baseline of the current count came from:          *)
 (*             "exit" the ACK that ended an episode, "idle" an ACK that    *)
 (*             arrived while nothing was in flight, "" any other packet    *)
@@ -67,7 +66,9 @@
 (*                          last is rewound to it, RTO mode                *)
 (*   <<"x">>                one pass of the dispatcher's recovery branch   *)
 (*                          (send_tx_queue, `if let Some(rec) =            *)
-(*                          recovery.recovering_mut()`)                    *)
+(*                          recovery.recovering_mut()`), behind the gate   *)
+(*                          "We are in RTO retransmission mode, don't send *)
+(*                          anything"                                      *)
 (* Apply(s, op) = [st, ans, info].  ans = <<is_recovering, recovery point  *)
 (* (-1: none), on_enter_recovery calls, on_recovered calls, fr>> is what   *)
 (* the real objects must show after the call (fr: the sequence number the  *)
@@ -96,9 +97,36 @@
 (*         recovery, or that arrived while nothing was in flight, is the   *)
 (*         baseline: its first repeat is the first duplicate.              *)
 (* MCRecovery checks must => reference => may on every transition.         *)
-(* A timeout recovery ("rto") begins with EVERY retransmission timeout,    *)
-(* inside an episode or not (RFC 6582 4), and lasts until a packet's       *)
-(* ack_nr reaches the highest sequence number transmitted before it.       *)
+(*                                                                         *)
+(* TIMEOUTS.  C06 is about retransmissions on the wire: "... trigger a     *)
+(* retransmission without waiting for the timeout (unless a timeout        *)
+(* recovery is already in progress)".  On the wire a timeout recovery is   *)
+(* the dispatcher's RTO mode (blocked): while it lasts the recovery branch *)
+(* sends nothing, whatever the state machine believes                      *)
+(* (C06.NoEntryDuringRto, wire clause).  Inside the state machine:         *)
+(*   - a timeout INSIDE an episode ends it and begins an ignore period     *)
+(*     ("rto") up to last_sent_seq_nr: RFC 6675 5.1 "If an RTO occurs      *)
+(*     during loss recovery ... RecoveryPoint MUST be set to HighData ...  *)
+(*     a new recovery phase MUST NOT be initiated until HighACK is greater *)
+(*     than or equal to the new value of RecoveryPoint"                    *)
+(*     (C06.NoEntryDuringRto, state clause);                               *)
+(*   - a timeout OUTSIDE an episode changes nothing in the state machine   *)
+(*     (RFC 6675 5.1 read alone allows that): no ignore period, the        *)
+(*     duplicate count is kept, and an episode that begins later takes the *)
+(*     current - rewound - last_sent_seq_nr as its recovery point.  RFC    *)
+(*     6582 4 ("After a retransmit timeout, record the highest sequence    *)
+(*     number transmitted in the variable recover") would keep a timeout   *)
+(*     recovery here too; what is lost by not doing so is congestion state *)
+(*     (on_enter_recovery right after on_retransmission_timeout, ssthresh  *)
+(*     of two segments after the next ACK), which C06 does not constrain.  *)
+(*     Counted as observations, never violations:                          *)
+(*       C06.NoEntryDuringRto.entryAfterOpenTimeout  an episode began      *)
+(*           before ack_nr reached orp                                     *)
+(*       C06.RecoveryPoint.rewound  its recovery point is a rewound        *)
+(*           last_sent_seq_nr, below the highest sequence number sent      *)
+(*       C06.NoEntryDuringRto.pointNotRaised  a further timeout inside an  *)
+(*           ignore period with data transmitted beyond its point left the *)
+(*           point where it was                                            *)
 (***************************************************************************)
 EXTENDS Integers, Sequences, FiniteSets, SeqArith
 
@@ -132,12 +160,13 @@ Outstanding(s) == NQ(s) > 0 /\ Dist(s.last, s.una, M) >= 0
 
 StNew(u) ==
     [una |-> u, q |-> << >>, last |-> Prev(u), high |-> Prev(u), blocked |-> FALSE,
-     mode |-> "open", point |-> -1, org |-> "", rtxd |-> FALSE, sack |-> FALSE,
-     pa |-> -1, pw |-> -1, cnt |-> 0, sd |-> 0, ld |-> 0, rep |-> 0, bl |-> "", tnt |-> FALSE]
+     mode |-> "open", point |-> -1, orp |-> -1, rtxd |-> FALSE, sack |-> FALSE,
+     pa |-> -1, pw |-> -1, cnt |-> 0, sd |-> 0, ld |-> 0, rep |-> 0, bl |-> ""]
 
 NoInfo == [kind |-> "", must |-> FALSE, may |-> FALSE, out |-> FALSE, full |-> FALSE, allow |-> << >>,
            mustDup |-> FALSE, mustSack |-> FALSE, idleRepeat |-> FALSE, rtoEvidence |-> FALSE, pastPoint |-> FALSE,
-           rawOnly |-> FALSE, bl |-> ""]
+           rawOnly |-> FALSE, bl |-> "", afterOpenTimeout |-> FALSE, rewound |-> FALSE, notRaised |-> FALSE,
+           gated |-> FALSE]
 
 Ans(s, ent, exi, fr) == <<B(s.mode = "rec"), IF s.mode = "rec" THEN s.point ELSE -1, ent, exi, fr>>
 
@@ -161,25 +190,22 @@ SendNext(s) ==
                         !.high = IF Dist(sq, @, M) > 0 THEN sq ELSE @]
     IN  [st |-> s1, ans |-> Ans(s1, 0, 0, -1), info |-> [NoInfo EXCEPT !.kind = "d"]]
 
-(* The retransmission timer fires (queue not empty).                       *)
-(* RFC 6582 4: "After a retransmit timeout, record the highest sequence    *)
-(* number transmitted in the variable recover, and exit the fast recovery  *)
-(* procedure if applicable."   RFC 6675 5.1: "RecoveryPoint MUST be set to *)
-(* HighData ... a new recovery phase MUST NOT be initiated until HighACK   *)
-(* is greater than or equal to the new value of RecoveryPoint."            *)
-(* (If nothing that was transmitted is unacknowledged when the timer fires *)
-(* - the dispatcher's timer can run for data that was segmented but never  *)
-(* sent - the point is already acknowledged and the first packet that is   *)
-(* not stale ends the timeout recovery and is the baseline.)               *)
+(* The retransmission timer fires (queue not empty): the first segment is  *)
+(* resent, last_sent_seq_nr is rewound to it, RTO mode.  Inside an episode *)
+(* the episode ends and an ignore period begins (RFC 6675 5.1, see         *)
+(* TIMEOUTS above); outside, the state machine is left as it is.           *)
 Rto(s) ==
     IF NQ(s) = 0 THEN [st |-> s, ans |-> Ans(s, 0, 0, -1), info |-> [NoInfo EXCEPT !.kind = "t"]]
     ELSE
-    LET s1 == [s EXCEPT !.mode = "rto", !.point = s.high, !.rtxd = FALSE,
-                        !.org = IF s.mode # "rto" THEN s.mode ELSE IF s.high # s.point THEN "rto" ELSE @,
-                        !.tnt = @ \/ s.mode = "open" \/ (s.mode = "rto" /\ s.high # s.point),
+    LET inEp == s.mode = "rec"
+        s1 == [s EXCEPT !.mode = IF inEp THEN "rto" ELSE @,
+                        !.point = IF inEp THEN s.last ELSE @,
+                        !.rtxd = IF inEp THEN FALSE ELSE @,
+                        !.orp = IF s.mode = "open" /\ Dist(s.high, s.una, M) >= 0 THEN s.high ELSE @,
                         !.last = s.una, !.high = IF Dist(s.una, @, M) > 0 THEN s.una ELSE @,
-                        !.blocked = TRUE, !.cnt = 0, !.sd = 0, !.ld = 0, !.bl = ""]
-    IN  [st |-> s1, ans |-> Ans(s1, 0, 0, -1), info |-> [NoInfo EXCEPT !.kind = "t"]]
+                        !.blocked = TRUE]
+    IN  [st |-> s1, ans |-> Ans(s1, 0, 0, -1),
+         info |-> [NoInfo EXCEPT !.kind = "t", !.notRaised = s.mode = "rto" /\ Dist(s.last, s.point, M) > 0]]
 
 (* What a recovery episode may retransmit: "recovery retransmits only      *)
 (* lost, undelivered segments up to the recovery point" (and C06 "A        *)
@@ -194,11 +220,14 @@ Allowed(s) ==
 (* episode is unconditional ("we MUST transmit the first segment no matter *)
 (* what") and carries the first unacknowledged segment: that is the fast   *)
 (* retransmit of RFC 5681 3.2 step 2 / RFC 6675 5 step (4.3).              *)
+(* In RTO mode the dispatcher returns before it ("not sending anything     *)
+(* while in RTO processing"): nothing may be retransmitted.                *)
 Retx(s) ==
-    LET al == Allowed(s)
+    LET al == IF s.blocked THEN << >> ELSE Allowed(s)
         fr == IF s.mode = "rec" /\ ~s.rtxd /\ al # << >> THEN al[1] ELSE -1
         s1 == [s EXCEPT !.rtxd = @ \/ (s.mode = "rec" /\ al # << >>)]
-    IN  [st |-> s1, ans |-> Ans(s1, 0, 0, fr), info |-> [NoInfo EXCEPT !.kind = "x", !.allow = al]]
+    IN  [st |-> s1, ans |-> Ans(s1, 0, 0, fr),
+         info |-> [NoInfo EXCEPT !.kind = "x", !.allow = al, !.gated = s.blocked /\ s.mode = "rec"]]
 
 (* A packet is processed.                                                  *)
 Ack(s, a, has, bytes, ty, w) ==
@@ -246,7 +275,10 @@ Ack(s, a, has, bytes, ty, w) ==
                   ELSE IF acked > 0 /\ has = 0 THEN 0
                   ELSE IF has = 1 \/ (acked = 0 /\ ty = ST_STATE) THEN Min2(s.ld + 1, DupThreshold)
                   ELSE s.ld
-        must   == s.mode = "open" /\ out /\ (sd1 >= DupThreshold \/ hon >= DupThreshold)
+        (* "(unless a timeout recovery is already in progress)": no obligation before ack_nr reaches the
+           highest sequence number that had been transmitted when the timer fired *)
+        inOrp  == s.orp >= 0 /\ Dist(a, s.orp, M) < 0
+        must   == s.mode = "open" /\ out /\ ~inOrp /\ (sd1 >= DupThreshold \/ hon >= DupThreshold)
         mayEv  == out /\ (ld1 >= DupThreshold \/ pop >= DupThreshold \/ sb >= DupThreshold)
         enter  == s.mode = "open" /\ out /\ cnt1 >= DupThreshold
         (* RFC 6582 3.2 "Full acknowledgments: If this ACK acknowledges all of the data up to and
@@ -261,8 +293,8 @@ Ack(s, a, has, bytes, ty, w) ==
                  !.una = una3, !.q = q3, !.last = last1, !.high = high1,
                  !.blocked = IF acked > 0 \/ new # {} THEN FALSE ELSE @,
                  !.mode = IF enter THEN "rec" ELSE IF full THEN "open" ELSE @,
-                 !.point = IF enter THEN s.high ELSE IF full THEN -1 ELSE @,
-                 !.org = IF full THEN "" ELSE @,
+                 !.point = IF enter THEN s.last ELSE IF full THEN -1 ELSE @,
+                 !.orp = IF inOrp THEN @ ELSE -1,
                  !.rtxd = IF enter \/ full THEN FALSE ELSE @,
                  !.sack = sack1, !.pa = a, !.pw = w,
                  !.cnt = IF s.mode = "open" /\ ~enter THEN cnt1 ELSE 0,
@@ -270,8 +302,7 @@ Ack(s, a, has, bytes, ty, w) ==
                  !.ld = IF s.mode = "open" /\ ~enter THEN ld1 ELSE 0,
                  !.rep = IF same THEN Min2(@ + 1, DupThreshold) ELSE 0,
                  !.bl = IF enter THEN "" ELSE IF full THEN "exit" ELSE IF s.mode # "open" THEN @
-                        ELSE IF ~out THEN "idle" ELSE IF counted THEN @ ELSE "",
-                 !.tnt = IF s.mode = "open" /\ (enter \/ ~out \/ (sack1 /\ has = 0) \/ (~sack1 /\ ~same)) THEN FALSE ELSE @]
+                        ELSE IF ~out THEN "idle" ELSE IF counted THEN @ ELSE ""]
     IN  [st |-> s1,
          ans |-> Ans(s1, B(enter), B(s.mode = "rec" /\ full), -1),
          info |-> [NoInfo EXCEPT !.kind = "a", !.must = must, !.may = mayEv, !.out = out, !.full = full,
@@ -280,7 +311,7 @@ Ack(s, a, has, bytes, ty, w) ==
                      !.rtoEvidence = s.mode = "rto" /\ ~full /\ out /\ (pop >= DupThreshold \/ (same /\ s.rep >= DupThreshold - 1)),
                      !.pastPoint = s.mode # "open" /\ ~full /\ Dist(Prev(una3), s.point, M) >= 0,
                      !.rawOnly = mayEv /\ ld1 < DupThreshold /\ sb < DupThreshold,
-                     !.bl = s.bl]]
+                     !.bl = s.bl, !.afterOpenTimeout = enter /\ inOrp, !.rewound = enter /\ s.last # s.high]]
 
 IsOp(op) == op[1] \in {"q", "d", "a", "t", "x"}
 Apply(s, op) ==
@@ -306,17 +337,15 @@ Obs(s) == <<s.una, NQ(s), s.last, B(s.blocked), SelectSeq([i \in 1..NQ(s) |-> i 
 ---------------------------------------------------------------------------
 (* State invariants (checked by MCRecovery).                               *)
 
-(* a queue never starts with a delivered segment; last never passes high;  *)
-(* outside timeout recovery the dispatcher's send pointer is the highest   *)
-(* sequence number transmitted, so "the highest sequence number sent" and  *)
-(* last_sent_seq_nr are the same thing wherever an episode may begin       *)
+(* a queue never starts with a delivered segment; last never passes high   *)
+(* nor falls behind SND.UNA - 1; the counts are ordered strictest <=       *)
+(* reference <= loosest and vanish outside "open"                          *)
 Shape(s) ==
     /\ NQ(s) > 0 => ~s.q[1]
     /\ Dist(s.last, s.high, M) <= 0
     /\ Dist(s.last, Prev(s.una), M) >= 0
-    /\ s.mode \in {"open", "rec"} => s.last = s.high
     /\ s.mode = "open" <=> s.point = -1
-    /\ s.blocked => (s.mode = "rto" \/ s.last = s.una)
+    /\ s.orp >= 0 => Dist(s.orp, s.high, M) <= 0
     /\ s.sd <= s.cnt /\ s.cnt <= s.ld /\ s.cnt < DupThreshold
     /\ s.mode # "open" => s.cnt = 0 /\ s.sd = 0 /\ s.ld = 0
 
@@ -335,7 +364,9 @@ RuleNames == {
     "C06.FastRetxEnters.dupacks", "C06.FastRetxEnters.sack", "C06.FastRetxEnters.baseExit",
     "C06.FastRetxEnters.baseIdle", "C06.FastRetxEnters.retransmits",
     "C06.NoSpuriousEntry.idleRepeat", "C06.NoSpuriousEntry.below", "C06.NoSpuriousEntry.rawBitsOnly",
-    "C06.NoEntryDuringRto.evidence",
+    "C06.NoEntryDuringRto.evidence", "C06.NoEntryDuringRto.gated",
+    \* observations (see TIMEOUTS): counted, never violated
+    "C06.NoEntryDuringRto.entryAfterOpenTimeout", "C06.NoEntryDuringRto.pointNotRaised", "C06.RecoveryPoint.rewound",
     "C06.ExitsOnFullAck.full", "C06.ExitsOnFullAck.partial", "C06.ExitsOnFullAck.unaPastPoint",
     "C06.OnlyLostRetransmitted.some", "C06.OnlyLostRetransmitted.skipsDelivered" }
 
@@ -397,17 +428,24 @@ RulesX(s, pv, op, o, r, e) ==
          bitmap alone (they do not refer to >= 3 queued segments, e.g. a stale or bogus selective ACK) *)
       <<"C06.NoSpuriousEntry.rawBitsOnly", isA /\ entered /\ s.mode = "open" /\ i.rawOnly, TRUE>>,
 
-      (* "(unless a timeout recovery is already in progress)": RFC 6582 4 / RFC 6675 5.1: after a
-         retransmission timeout no fast-recovery episode begins until the cumulative ACK reaches the
-         highest sequence number that had been transmitted when the timer fired *)
-      <<"C06.NoEntryDuringRto", isA /\ s.mode = "rto", ok /\ o.ans[1] = 0 /\ o.ans[3] = 0>>,
+      (* "(unless a timeout recovery is already in progress)".  State clause, RFC 6675 5.1: in the ignore
+         period after a timeout inside an episode "a new recovery phase MUST NOT be initiated until HighACK
+         is greater than or equal to the new value of RecoveryPoint".  Wire clause: while the dispatcher is
+         in RTO mode (until a packet acknowledges or selectively acknowledges something new) a pass of the
+         recovery branch retransmits nothing. *)
+      <<"C06.NoEntryDuringRto", (isA /\ s.mode = "rto") \/ (k = "x" /\ s.blocked),
+          ok /\ (isA => (o.ans[1] = 0 /\ o.ans[3] = 0)) /\ (k = "x" => (o.rtx = << >> /\ o.ans[5] = -1))>>,
       <<"C06.NoEntryDuringRto.evidence", isA /\ i.rtoEvidence, TRUE>>,
+      <<"C06.NoEntryDuringRto.gated", k = "x" /\ i.gated, TRUE>>,
+      <<"C06.NoEntryDuringRto.entryAfterOpenTimeout", isA /\ entered /\ i.afterOpenTimeout, TRUE>>,
+      <<"C06.NoEntryDuringRto.pointNotRaised", k = "t" /\ i.notRaised, TRUE>>,
 
       (* RFC 6675 5 (4.1) "RecoveryPoint = HighData"; RFC 6582 3.2 step 2 "record the highest sequence
          number transmitted in the variable recover": fixed when the episode begins, to the highest
-         sequence number sent; unchanged while it lasts *)
+         sequence number sent as the dispatcher keeps it (last_sent_seq_nr); unchanged while it lasts *)
       <<"C06.RecoveryPoint", rec1,
-          IF entered THEN o.ans[2] = s.high ELSE (o.ans[2] = pv[2] /\ (s.mode = "rec" => o.ans[2] = s.point))>>,
+          IF entered THEN o.ans[2] = s.last ELSE (o.ans[2] = pv[2] /\ (s.mode = "rec" => o.ans[2] = s.point))>>,
+      <<"C06.RecoveryPoint.rewound", isA /\ entered /\ i.rewound, TRUE>>,
 
       (* RFC 6582 3.2 step 3 "Full acknowledgments ... exit the fast recovery procedure", "Partial
          acknowledgments ... do not exit": the episode ends with the packet whose ack_nr reaches the
@@ -432,5 +470,5 @@ RulesX(s, pv, op, o, r, e) ==
 Rules(s, pv, op, o) ==
     UNION { RulesX(s, pv, op, o, v[1], v[2]) : v \in { <<x, Obs(x.st)>> : x \in {Apply(s, op)} } }
 
-ModeCtx(s) == s.mode \o (IF s.mode = "rto" THEN "-after-" \o s.org ELSE "") \o (IF s.mode = "open" /\ s.tnt THEN "+t" ELSE "")
+ModeCtx(s) == s.mode
 =============================================================================
